@@ -13,8 +13,6 @@ impl<E: HasKey> SortByEntryKeyV<E> for Vec<E> {
     #[verifier::external_body]
     fn sort_by_entry_key_v(&mut self) { unimplemented!() }
 }
-pub assume_specification<T: PartialOrd> [<[T] as PartialOrd<[T]>>::ge] (a: &[T], b: &[T]) -> (r: bool)
-    ensures r == !slice_lt(a@, b@);
 // non-decreasing order over pairwise different keys is strictly ascending order
 proof fn lemma_nondecreasing_distinct_is_ascending<E: HasKey>(s: Seq<E>)
     requires keys_nondecreasing(s), forall|i: int, j: int| 0 <= i < j < s.len() ==> #[trigger] s[i].key_seq() != #[trigger] s[j].key_seq(),
